@@ -78,7 +78,16 @@ where
 
                     // First try decode from the buffer
                     let inner = buf.inner();
-                    if let Some(frame) = this.framer.extract(inner)? {
+                    let frame = match this.framer.extract(inner) {
+                        Ok(frame) => frame,
+                        Err(e) => {
+                            // Keep the reader and the buffer: the stream must stay usable
+                            // after it has reported the framer's error.
+                            this.read_state.inner = StateInner::Idle(Some((io, buf)));
+                            return Poll::Ready(Some(Err(e.into())));
+                        }
+                    };
+                    if let Some(frame) = frame {
                         let (begin, end) = (inner.begin(), inner.end());
                         let slice = frame.slice(buf.take_inner()).flatten(); // focus on only the payload
                         let decoded = this.codec.decode(&slice);
